@@ -29,7 +29,10 @@ def run(c):
               "catalogue of ~80 pattern templates covering every bucket tag plus statement-, expression- and declaration-list "
               "patterns; filters none / Deadcode / !Deadcode / Const / a custom bytecode filter on the type of $x; reports by Report() or a Do() "
               "handler) run over a type-checked kitchen-sink file, generated "
-              "nestings and repository test files; every other random history has 1-2 Load calls that are rejected (a re-declared group "
+              "nestings, repository test files and one fixed file nested ~300 levels deep in every shape generated code has (left-nested "
+              "concatenations of 280 operands, an else-if chain of 280 arms, fluent call chains, parentheses, blocks, literals; three "
+              "targeted sets for the leaves at the bottom and the nodes of every level; the walker hook is compared with ast.Inspect on the "
+              "same file, also from non-initial contexts and with a panicking callback); every other random history has 1-2 Load calls that are rejected (a re-declared group "
               "in front of / between / behind new groups, a bundle imported twice under one prefix, a file that does not parse or "
               "type-check, a pattern gogrep rejects), anywhere in the history, sometimes followed by a file that declares the "
               "rejected file's new groups again; after its lone run every set is run as the root of a tree of runs started from Report "
@@ -145,6 +148,8 @@ def run(c):
                 c.coverage["runs_in_progress_at_the_same_time"] = c.coverage.get("runs_in_progress_at_the_same_time", 0) + o["parallel_runs"]
             if o.get("theme") == "imports" and o.get("engine"):
                 c.coverage["sets_with_leaf_rules_matching_inside_import_declarations"] = c.coverage.get("sets_with_leaf_rules_matching_inside_import_declarations", 0) + 1
+            if o.get("theme") == "deep" and len(o.get("engine") or []) >= 4:
+                c.coverage["sets_run_on_the_deeply_nested_target"] = c.coverage.get("sets_run_on_the_deeply_nested_target", 0) + 1
             if o.get("last_lean"):
                 c.coverage["histories_whose_last_load_adds_no_syntax_rule"] = c.coverage.get("histories_whose_last_load_adds_no_syntax_rule", 0) + 1
             if sum(o.get("parts") or []):
@@ -169,6 +174,9 @@ def run(c):
         if c.coverage.get("sets_with_leaf_rules_matching_inside_import_declarations", 0) < 4:
             c.obligation("harness-run:rules-import-leaf-sets", False, "the targeted sets of identifier / literal rules over the import declarations "
                          "(with and without declaration-rooted rules next to them) did not all run and report")
+        if c.coverage.get("sets_run_on_the_deeply_nested_target", 0) < 3:
+            c.obligation("harness-run:rules-deep-target-sets", False, "the targeted sets over the deeply nested target (leaves at the bottom of "
+                         "the nests, level nodes) did not all run and report")
         c.coverage["rule_sets_run"] = c.coverage.get("rule_sets_run", 0) + len(sets)
         # K: the Coq model of load + dispatch on the oracle's matcher table vs. the engine's reports
         if not inst_ok:
